@@ -17,6 +17,7 @@ func init() {
 }
 
 func runC10(c *Ctx) {
+	defer checkContextPropagated(c, "C10.R17")
 	defer checkOneTransport(c, "C10.R16")
 	defer checkParseSignatureFirst(c, "C10.R15")
 	defer checkJWKSCacheKey(c, "C10.R14")
